@@ -386,6 +386,11 @@ def run(res):
         p = progs[i]
 
         def still_bad(q):
+            try:        # only well-defined, terminating candidates are ever compiled and run
+                for inp in q["inputs"]:
+                    c05_gen.InterpX64(q, inp).run(max_steps=50000)
+            except (c05_gen.Unknown, KeyError, IndexError):
+                return False
             o2, rc3, _ = run_batch([c05_gen.render(q)])
             if rc3 != 0 or not o2 or not o2[0].startswith("ok"):
                 return False
